@@ -25,6 +25,24 @@ M = S("M")
 D = S("input.data")
 
 
+def is_one(v):
+    """the stored value 1 (True on a boolean array is the same element)"""
+    return (isinstance(v, Form) and v == Form.num(1)) or (isinstance(v, Const) and v.v is True)
+
+
+def same_mod_1d_size(a, b):
+    """equal forms, reading `x.shape[0]` of a one-dimensional value as `x.size`"""
+    def norm(v):
+        def fn(at):
+            if at[0] == "idx" and isinstance(at[1], Form) and at[2] == Form.num(0):
+                inner = at[1].single_atom()
+                if inner and inner[0] == "attr" and inner[2] == "shape":
+                    return Form.atom(("attr", inner[1].subst(fn) if isinstance(inner[1], Form) else inner[1], "size"))
+            return None
+        return v.subst(fn) if isinstance(v, Form) else v
+    return norm(a) == norm(b)
+
+
 def pow2_guard(ctx, fi, rule):
     g = None
     for ifn, test, excs in find_raise_guards(fi):
@@ -79,7 +97,9 @@ def run(ctx):
         n = Form.atom(("attr", dec, "size"))
         want = mk_fn("setitem", [mk_fn("zeros", [n * M], [("dtype", __import__("ocv.absint", fromlist=["ClassRef"]).ClassRef("bool"))]), mk_fn("arange", [n]) * M + dec, Form.num(1)])
         got = rets[0].value.fields.get("data")
-        if isinstance(got, Form) and got == want:
+        ga = got.single_atom() if isinstance(got, Form) else None
+        wa = want.single_atom()
+        if ga and ga[0] == "fn" and ga[1] == "setitem" and len(ga[2]) == 3 and ga[2][0] == wa[2][0] and ga[2][1] == wa[2][1] and is_one(ga[2][2]):
             ctx.holds("C12.2", fi, rets[0].node, "PPM_ENCODER: zeros(n*M)[arange(n)*M + value] = 1, value = big-endian weight sum of k bits", "one ON slot per block at the big-endian value")
         else:
             # localise
@@ -99,20 +119,17 @@ def run(ctx):
     rets = [o for o in outs if o.kind == "return"]
     if len(rets) == 1 and isinstance(rets[0].value, ObjV):
         got = rets[0].value.fields.get("data")
-        maps = [r for r in it.calls if r.callee == "map" and r.depth == 0]
-        ok = False
+        pos = mk_fn("mod", [Form.atom(("idx", mk_fn("where", [mk_fn("eq", [D, Form.num(1)])]), Form.num(0))), M])
+        want = mk_fn("ravel", [mk_fn("listcomp", [mk_fn("dec2bin", [mk_fn("elem", [pos]), k]), pos])])
+        ok = isinstance(got, Form) and got == want
         why = "decoder is not ravel([dec2bin(p % M, k) for p in positions of ON slots])"
-        if len(maps) == 1 and isinstance(maps[0].args[0], FuncV):
-            body = Interp(pkg, no_inline=("dec2bin",)).call_funcv(maps[0].args[0], [S("x")])
-            pos = mk_fn("mod", [Form.atom(("idx", mk_fn("where", [mk_fn("eq", [D, Form.num(1)])]), Form.num(0))), M])
-            ok_body = isinstance(body, Form) and body == mk_fn("dec2bin", [S("x"), k])
-            ok_pos = maps[0].args[1] == pos
-            a = got.single_atom() if isinstance(got, Form) else None
-            ok = ok_body and ok_pos and a is not None and a[0] == "fn" and a[1] == "ravel"
-            if not ok_body:
-                why = f"per-symbol expansion is {body!r}, expected dec2bin(x, int(log2(M)))"
-            elif not ok_pos:
-                why = f"symbol values are {maps[0].args[1]!r}, expected ON positions modulo M"
+        a = got.single_atom() if isinstance(got, Form) else None
+        lc = a[2][0].single_atom() if a and a[0] == "fn" and a[1] == "ravel" and a[2] and isinstance(a[2][0], Form) else None
+        if not ok and lc and lc[0] == "fn" and lc[1] == "listcomp" and len(lc[2]) == 2:
+            if lc[2][1] != pos:
+                why = f"symbol values are {lc[2][1]!r}, expected ON positions modulo M"
+            else:
+                why = f"per-symbol expansion is {lc[2][0]!r}, expected dec2bin(x, int(log2(M)))"
         ctx.check("C12.3", ok, fd, rets[0].node, "PPM_DECODER: ON position mod M -> dec2bin(., k)", "inverse of the encoder on whole symbols", why)
     else:
         ctx.unknown("C12.3", fd, fd.node, "PPM_DECODER", f"{len(rets)} return paths")
@@ -136,20 +153,20 @@ def run(ctx):
     if len(st_empty) == 1:
         idx = st_empty[0][2][2]
         want = i_empty * M + mk_fn("numpy.random.randint", [M])
-        ctx.check("C12.4", idx == want and st_empty[0][3] == Form.num(1), fh, st_empty[0][1], f"HDD empty symbol: {src_of(st_empty[0][1])}", "raises slot i*M + randint(M) for i in where(s == 0)",
+        ctx.check("C12.4", idx == want and is_one(st_empty[0][3]), fh, st_empty[0][1], f"HDD empty symbol: {src_of(st_empty[0][1])}", "raises slot i*M + randint(M) for i in where(s == 0)",
                   f"index {idx!r} is not i*M + randint(M) over the empty symbols (where(s==0)): the raised slot can leave the symbol or touch non-empty symbols")
     else:
         ctx.violation("C12.4", fh, fh.node, "HDD empty-symbol repair", "no store at i*M + randint(M): symbols without an ON slot are not repaired")
     if len(st_clear) == 1 and len(st_keep) == 1:
         sl = st_clear[0][2][2]
-        ok_sl = sl.lo == i_multi * M and sl.hi == (i_multi + 1) * M and st_clear[0][3] == Form.num(0)
+        ok_sl = sl.lo == i_multi * M and sl.hi == (i_multi + 1) * M and (st_clear[0][3] == Form.num(0) or (isinstance(st_clear[0][3], Const) and st_clear[0][3].v is False))
         ctx.check("C12.4", ok_sl, fh, st_clear[0][1], f"HDD multiple symbol: {src_of(st_clear[0][1])}", "clears exactly the symbol slice [i*M, (i+1)*M) for i in where(s > 1)",
                   "the cleared range is not the symbol [i*M:(i+1)*M] over where(s>1): symbols with exactly one ON slot could be touched")
         idx = st_keep[0][2][2]
         sym_before = Form.atom(("idx", D, SliceV(i_multi * M, (i_multi + 1) * M, Const(None))))
         j = Form.atom(("idx", mk_fn("where", [mk_fn("eq", [sym_before, Form.num(1)])]), Form.num(0)))
         want = i_multi * M + mk_fn("numpy.random.choice", [j])
-        ctx.check("C12.4", idx == want and st_keep[0][3] == Form.num(1) and st_keep[0][1].lineno > st_clear[0][1].lineno, fh, st_keep[0][1], f"HDD multiple symbol: {src_of(st_keep[0][1])}",
+        ctx.check("C12.4", idx == want and is_one(st_keep[0][3]) and st_keep[0][1].lineno > st_clear[0][1].lineno, fh, st_keep[0][1], f"HDD multiple symbol: {src_of(st_keep[0][1])}",
                   "keeps i*M + choice(j), j = ON slots of that symbol read before the clear",
                   f"kept slot index {idx!r} is not i*M + choice(where(symbol == 1)) of the symbol as it was before clearing: the kept slot need not have been ON")
     else:
@@ -179,8 +196,8 @@ def run(ctx):
             want_idx = mk_fn("arange", [nsymb]) * M + am
             ba = base.single_atom() if isinstance(base, Form) else None
             ok_base = ba and ba[0] == "fn" and ba[1] in ("zeros_like", "zeros") and (ba[2][0] == energy or True)
-            ok = idx == want_idx and val == Form.num(1) and bool(ok_base)
-            if idx != want_idx:
+            ok = same_mod_1d_size(idx, want_idx) and is_one(val) and bool(ok_base)
+            if not same_mod_1d_size(idx, want_idx):
                 ams = [x for x in idx.atoms() if x[0] == "fn" and x[1] in ("argmax", "argmin")] if isinstance(idx, Form) else []
                 if ams and ams[0][1] == "argmin":
                     why = "the slot of *smallest* energy is selected (argmin)"
